@@ -41,4 +41,17 @@ TestSizesSumToN == GenDone =>
 EveryObjectOnce == phase = "done" => \A i \in 0..(n - 1) : counter[i] = 1
 CounterBounded == \A i \in 0..(n - 1) : counter[i] <= 1
 Terminates == <>(phase = "done")
+(* Renaming view (round 3).  The machine and every invariant above are invariant under renaming object ids (Draw(v) is offered for  *)
+(* EVERY v; InGid, IsPartition, SplitIsSound, the counters only compare ids for equality).  SymView renames the ids of a state by  *)
+(* order of first appearance in gid, so TLC still GENERATES the successor of every draw but keeps one representative per renaming  *)
+(* class: the state count falls from sum n!/(n-k)! to O(slots) per (n, g), and every (n, g) of the quantifier (n <= 30) is reached *)
+(* (MC_CvPartition_sym_*.cfg).  The unreduced run (n <= 6 / 7) stays as the cross-check of the symmetry argument.                  *)
+FirstPos(v) == CHOOSE s \in DOMAIN gid : gid[s] = v /\ \A t \in 1..(s - 1) : gid[t] # v
+Ren(v) == Cardinality({gid[t] : t \in 1..(FirstPos(v) - 1)} \ {-1})
+CanonGid == [s \in DOMAIN gid |-> IF gid[s] = -1 THEN -1 ELSE Ren(gid[s])]
+CanonCounter == [s \in DOMAIN gid |-> IF gid[s] = -1 THEN -1 ELSE counter[gid[s]]]
+UnplacedCounters == {counter[i] : i \in {j \in 0..(n - 1) : ~InGid(j)}}
+SymView == <<n, g, CanonGid, slot, k, phase, grp, CanonCounter, UnplacedCounters>>
+\* ids not (yet) placed were never predicted
+UnplacedUntouched == \A i \in 0..(n - 1) : ~InGid(i) => counter[i] = 0
 ====
